@@ -8,8 +8,13 @@ PROP = Prop(
                   "stickyTopicPartitioner.Partition", "stickyTopicPartitioner.OnNewBatch",
                   "stickyKeyTopicPartitioner.Partition",
                   "leastBackupInput.Next", "leastBackupTopicPartitioner.PartitionByBackup", "leastBackupTopicPartitioner.OnNewBatch",
-                  "uniformBytesTopicPartitioner.PartitionByBackup"]),
-            ("pkg/kgo/producer.go", ["Client.doPartition"])],
+                  "uniformBytesTopicPartitioner.PartitionByBackup",
+                  "basicTopicPartitioner.Partition", "ManualPartitioner",
+                  "basicTopicPartitioner.RequiresConsistency", "roundRobinTopicPartitioner.RequiresConsistency",
+                  "stickyTopicPartitioner.RequiresConsistency", "stickyKeyTopicPartitioner.RequiresConsistency",
+                  "leastBackupTopicPartitioner.RequiresConsistency", "uniformBytesTopicPartitioner.RequiresConsistency"]),
+            ("pkg/kgo/producer.go", ["Client.doPartition", "Client.loadPartsAndPartition"]),
+            ("pkg/kgo/metadata.go", ["metadataTopic.newPartitions"])],
     group_by_reset=True,
     rule="mm: keys of every length 0..64 (nil, empty, all-0x00/0xff/high-bit patterns), long keys, all 1-byte keys (thorough: all 2-byte keys); "
          "non-trivial = non-empty key. hk/hr: hashers over murmur2/fnv32a and over chosen hash values around the sign bit, n in [1, 2^31-1] "
@@ -17,10 +22,24 @@ PROP = Prop(
          "p/nb groups: one topic partitioner per group (round robin, sticky, sticky key, least backup, uniform bytes with every "
          "adaptive/keys/hasher/limit combination) driven by 8-37 ops mixing same/shrinking/growing n, OnNewBatch, keyed records from a small key pool, "
          "tied and extreme backup counts; 75% of groups with an injected random source (exact comparison), 25% with the partitioner's own "
-         "(trace acceptance); non-trivial = n >= 2. prod: records with chosen Partition through a real client with ManualPartitioner to kfake "
+         "(trace acceptance); non-trivial = n >= 2. rc: RequiresConsistency(record) of the group's topic partitioner for nil / empty non-nil / "
+         "non-empty keys (in direct and client groups); non-trivial = non-nil key, or any key under a partitioner with key logic. sel groups: one client per partitioner configuration "
+         "(the above plus ManualPartitioner, BasicConsistentPartitioner over a hasher, the client's default partitioner), a producer topic "
+         "whose shape is set before every record by a verif hook (1-24 partitions that only grow, writable subset = all / all but one / random / "
+         "one / none, tied and extreme buffered counts, topic load error none / retriable / fatal), records (25% empty non-nil key, 47% pool "
+         "keys, 28% nil key; ManualPartitioner: partition numbers in and out of range) through the public Produce; 80% with a constant injected "
+         "random draw (exact comparison of the partition incl. the OnNewBatch re-pick), 20% with the partitioner's own source (keyed exact, unkeyed by the Spec); "
+         "non-trivial = >= 2 partitions. e2e groups (first group of every run: default partitioner, one leader outage per partition; plus 6/40 more): "
+         "real client against kfake whose Metadata responses mark partitions LEADER_NOT_AVAILABLE, the same keys (empty key first) before / during / after "
+         "outages, then the outage ends and every record must be delivered to the partition it was buffered on; non-trivial = during an outage. prod: records with chosen Partition through a real client with ManualPartitioner to kfake "
          "(1/3/8 partitions); always non-trivial. distinct = distinct op lines.",
-    trusted_base=["hand-written Lean model of pkg/kgo/partitioner.go (murmur2, hashers, five partitioners, backup iterator) and of doPartition's range check, "
-                  "tied to the code by differential runs through the public interfaces (+ verif hooks: murmur2 export, rand injection, backup iterator constructor)",
+    trusted_base=["hand-written Lean model of pkg/kgo/partitioner.go (murmur2, hashers, five partitioners + basic/manual, RequiresConsistency of each, backup iterator) "
+                  "and of doPartition (mapping choice between all and writable partitions, Partition vs PartitionByBackup, range check, mapping[pick], OnNewBatch re-pick), "
+                  "tied to the code by differential runs through the public interfaces and the public Produce path (+ verif hooks: murmur2 export, rand injection, "
+                  "backup iterator constructor, producer-topic shape setter/reader)",
+                  "recBuf.bufferRecord is abstracted to three outcomes per partition (fits the open batch / needs a new batch / fails in the buffer); the driver derives "
+                  "them from which partitions already received a record in the group",
+                  "kfake and its Metadata control hook for the end-to-end outage ops",
                   "Spec transcriptions from memory of Apache Kafka Utils.murmur2/toPositive and of Sarama's hash partitioner (no network in the sandbox); "
                   "the six murmur2 vectors of Kafka's UtilsTest are part of every run",
                   "math/rand, hash/fnv, float arithmetic of the adaptive uniform-bytes pick: modelled (draw = any value allowed by the contract; adaptive pick = any element of calc), not verified",
@@ -28,6 +47,8 @@ PROP = Prop(
     assumptions=["64-bit Go int (SaramaHasher is int-width dependent by its own documentation)",
                  "1 <= n <= 2^31-1 for the partitioner theorems (partition counts are int32 on the wire); the hasher formulas hold for every n >= 1 except SaramaCompatHasher, whose int32(n) conversion needs n <= 2^31-1",
                  "PartitionByBackup is called as doPartition calls it: n = len(mapping), buffered counts are int64 values",
+                 "partsData.partitions[i] is partition number i and writablePartitions is a sub-list of it (metadataTopic.newPartitions); "
+                 "1 <= len(partitions) <= 2^31-1 (Produce never reaches doPartition with no partitions); the keyed-record theorems assume nothing about writablePartitions",
                  "record/key/header lengths < 2^30 and UniformBytes limit + record size < 2^63 (no int overflow in the byte accounting)"],
 )
 MANIFEST = {
@@ -37,10 +58,17 @@ MANIFEST = {
             "SaramaHasher = unsigned hash mod n; every built-in hasher never panics and is in [0,n); for round-robin, sticky, sticky-key, least-backup "
             "(with the real iterator) and uniform-bytes, every sequence of partition calls with arbitrary n_i in [1,2^31-1] (shrinking or growing), "
             "OnNewBatch events, backup counts and random draws never panics and every pick is in [0,n_i); keyed picks ignore the state (equal keys, "
-            "equal n => equal partition); doPartition rejects exactly the picks outside [0,len). The model is tied to the code by differential runs "
+            "equal n => equal partition); doPartition rejects exactly the picks outside [0,len). Client side: RequiresConsistency(r) holds iff the partitioner's key "
+            "branch is taken for r (then the pick is hasher(key,n) from every state; otherwise the hasher is never consulted; basic/manual always require it); for every "
+            "record whose key is non-nil (the empty key included) under sticky-key / uniform-bytes with keys, every state, topic of 1..2^31-1 partitions and EVERY "
+            "writable subset, buffered counts, batch states and draws, doPartition hands the record to partition number hasher(key, len(all partitions)) looked up in all "
+            "partitions (= toPositive(murmur2(key)) % len(all) for the default hasher): equal keys keep their partition across leader outages (Model => Spec selOk); "
+            "records that require consistency never read the writable subset; every record is placed on a partition of the topic, a writable one when it does not require "
+            "consistency and one exists. The model is tied to the code by differential runs "
             "(exact with an injected random source, trace acceptance with the real one), and the Spec is evaluated on the implementation's outputs.",
     "note": "Trusted: Lean kernel; the hand-written model (validated differentially, not verified); the remembered Java/Sarama reference formulas; "
             "math/rand, hash/fnv and the float arithmetic of the adaptive pick are abstracted (any draw allowed by the contract / any element of calc); "
             "64-bit int; n <= 2^31-1; trace-acceptance predicates of the driver are an oracle without a completeness proof.",
-    "technique": "Lean 4 proof (induction over chunks; invariant over operation sequences) with differential correspondence against the Go code through public interfaces and kfake",
+    "technique": "Lean 4 proof (induction over chunks; invariant over operation sequences; case analysis of doPartition) with differential correspondence against the Go code "
+                 "through public interfaces, the public Produce path on hook-shaped producer topics, and kfake leader outages end to end",
 }
